@@ -1790,7 +1790,7 @@ def run(tier):
         jobs.append((h, "incremental"))
         tags.append("enum")
     nrand = {"fragment": 260, "values": 110, "modeldepth": 90, "multi": 160, "reset": 90, "mixed": 100, "valuefree": 40} if tier == "quick" else \
-            {"fragment": 4000, "values": 1500, "modeldepth": 800, "multi": 2000, "reset": 1200, "mixed": 1500, "valuefree": 300}
+            {"fragment": 3500, "values": 1500, "modeldepth": 800, "multi": 2000, "reset": 1200, "mixed": 1500, "valuefree": 300}
     for cls, n in nrand.items():
         for _ in range(n):
             # every family sometimes draws from the large pool (formulas with 7..33 free symbols)
@@ -1799,10 +1799,10 @@ def run(tier):
             names = cls != "valuefree" and rnd.random() < 0.15
             jobs.append((random_history(rnd, cls, wide=wide, names=names), "incremental"))
             tags.append("random:" + cls + ("-wide" if wide else "") + ("-names" if names else ""))
-    for fam, gen, n in (("poplevels", poplevels_history, 200 if tier == "quick" else 4000),
+    for fam, gen, n in (("poplevels", poplevels_history, 200 if tier == "quick" else 3000),
                         ("widemodel", widemodel_history, 60 if tier == "quick" else 800),
-                        ("names", names_history, 200 if tier == "quick" else 3000),
-                        ("sortpos", sortpos_history, 160 if tier == "quick" else 3000),
+                        ("names", names_history, 200 if tier == "quick" else 2500),
+                        ("sortpos", sortpos_history, 160 if tier == "quick" else 2500),
                         ("paramsort", paramsort_history, 16 if tier == "quick" else 120),
                         ("sortvalue", sortvalue_history, 12 if tier == "quick" else 60)):
         for _ in range(n):
